@@ -325,8 +325,119 @@ def round_trip(rng, res, binary, rnd, candidates=None):
         srv.cleanup()
 
 
+def save_while_bgsave_parked(res, binary):
+    """The same question with the order forced: the background save is parked (sync point) before
+    its first key, a client writes and SAVEs, then the background save resumes and finishes LAST."""
+    srv = server.Server(binary, config_text="save \"\"\n").start()
+    try:
+        c = srv.client(timeout=30)
+        c.cmd("SET", "old", "v1")
+        c.cmd("RPUSH", "list", "a", "b")
+        c.cmd("VERIF", "RDB", "HOLD", "before-get", "old")
+        r = c.cmd("BGSAVE")
+        t_end = time.monotonic() + 10
+        while c.cmd("VERIF", "RDB", "STATE")[0] != b"parked" and time.monotonic() < t_end:
+            time.sleep(0.002)
+        if c.cmd("VERIF", "RDB", "STATE")[0] != b"parked":
+            res.inconclusive.append("save thread never parked before-get")
+            c.cmd("VERIF", "RDB", "RELEASE")
+            return
+        c.cmd("SET", "old", "v2")
+        c.cmd("SET", "fresh", "written-before-SAVE")
+        c.cmd("RPUSH", "list", "c")
+        try:
+            r = c.cmd("SAVE", timeout=5)
+        except Timeout:
+            # an implementation may let SAVE wait for the background save: with the save thread parked by
+            # this harness that wait cannot end - nothing to judge here (the free-running variant decides)
+            res.count("save_waits_for_parked_bgsave")
+            res.cell("save-while-bgsave", "parked", "save-waits")
+            return
+        refused = isinstance(r, Err)
+        c.cmd("VERIF", "RDB", "RELEASE")
+        t_end = time.monotonic() + 30
+        while time.monotonic() < t_end:
+            st = c.cmd("VERIF", "RDB", "SAVES")
+            if st[0] == st[1] and c.cmd("VERIF", "RDB", "INPROGRESS") == 0:
+                break
+            time.sleep(0.005)
+        if refused and c.cmd("SAVE", timeout=30) != OK:
+            res.violation("save-failed/after-bgsave", "SAVE after the background save had finished failed")
+            return
+        res.evaluations += 1
+        res.cell("save-while-bgsave", "parked", "refused" if refused else "accepted")
+        srv.kill()
+        srv.start()
+        c = srv.client(timeout=30)
+        got = [c.cmd("GET", "old"), c.cmd("GET", "fresh"), c.cmd("LRANGE", "list", 0, -1)]
+        want = [b"v2", b"written-before-SAVE", [b"a", b"b", b"c"]]
+        if got != want:
+            res.violation("save-during-bgsave/acknowledged-write-lost",
+                          "BGSAVE parked before its first key; SET old v2; SET fresh; RPUSH list c; SAVE -> %s; background save released and finished; "
+                          "kill + restart -> [old, fresh, list] = %s, expected %s (the older snapshot replaced the newer dump)" % (
+                              resp.show(r), resp.show(got, 30), resp.show(want, 30)))
+    finally:
+        srv.cleanup()
+
+
+def save_while_bgsave_runs(res, binary, rng):
+    """SAVE answered +OK means: a restart brings back everything acknowledged before it -
+    also when a background save (which started earlier and knows less) is still running
+    and finishes afterwards."""
+    srv = server.Server(binary, config_text="save \"\"\n").start()
+    try:
+        c = srv.client(timeout=120)
+        c.cmd("SET", "big", b"x" * (48 << 20))
+        c.cmd("RPUSH", "list", "a", "b")
+        c.cmd("SET", "old", "v1")
+        r = c.cmd("BGSAVE")
+        if isinstance(r, Err):
+            res.inconclusive.append("BGSAVE refused: %r" % (r,))
+            return
+        time.sleep(0.02)
+        c.cmd("SET", "old", "v2")
+        c.cmd("SET", "fresh", "written-before-SAVE")
+        c.cmd("RPUSH", "list", "c")
+        overlapped = c.cmd("VERIF", "RDB", "INPROGRESS") == 1
+        r = c.cmd("SAVE", timeout=120)
+        refused = isinstance(r, Err)
+        t_end = time.monotonic() + 120
+        while time.monotonic() < t_end:
+            st = c.cmd("VERIF", "RDB", "SAVES")
+            if st[0] == st[1] and c.cmd("VERIF", "RDB", "INPROGRESS") == 0:
+                break
+            time.sleep(0.01)
+        if refused:
+            # like Redis: not while a background save runs. Then the next one must do.
+            r2 = c.cmd("SAVE", timeout=120)
+            if r2 != OK:
+                res.violation("save-failed/after-bgsave", "SAVE after the background save had finished -> %r" % (r2,))
+                return
+        res.evaluations += 1
+        res.cell("save-while-bgsave", "overlapped" if overlapped else "not-overlapped", "refused" if refused else "accepted")
+        res.count("save_while_bgsave_overlapped", int(overlapped))
+        srv.kill()
+        srv.start()
+        c = srv.client(timeout=120)
+        got = [c.cmd("GET", "old"), c.cmd("GET", "fresh"), c.cmd("LRANGE", "list", 0, -1), c.cmd("STRLEN", "big")]
+        want = [b"v2", b"written-before-SAVE", [b"a", b"b", b"c"], 48 << 20]
+        if got != want:
+            res.violation("save-during-bgsave/acknowledged-write-lost",
+                          "BGSAVE of a 48 MB dataset; SET old v2; SET fresh; RPUSH list c; SAVE -> %s (%s); after the background save finished: kill + restart "
+                          "-> [old, fresh, list, strlen(big)] = %s, expected %s" % (resp.show(r), "still in progress at SAVE time" if overlapped else "already finished",
+                                                                                   resp.show(got, 30), resp.show(want, 30)))
+    finally:
+        srv.cleanup()
+
+
 def worker(wseed, binary, budget_s):
     res = Result()
+    if wseed % 1000 in (0, 1):
+        try:
+            save_while_bgsave_runs(res, binary, util.rng_for(wseed, "C09-swb"))
+            save_while_bgsave_parked(res, binary)
+        except (Closed, Timeout, AssertionError, RuntimeError) as e:
+            res.inconclusive.append("save-while-bgsave scenario: harness/connection problem %r" % (e,))
     t_end = time.time() + budget_s
     n = 0
     while time.time() < t_end:
@@ -368,6 +479,8 @@ def run(tier):
                        "streams with explicit and auto IDs, deleted tail, emptied, multi-field; TTLs of hours, minutes and "
                        "300-500 ms) -> canonical dump with brackets -> SAVE or BGSAVE (completion via the in-progress flag) -> "
                        "SIGKILL -> restart on the same directory -> dump -> compare; PTTL within the client-side bracket (both clocks) +-3 ms + 2 x measured scheduling noise, a deviation must repeat in two identical rounds; "
-                       "short-TTL keys absent after >= 700 ms downtime; cell = (type, size class, ttl class, db class)", t0,
+                       "short-TTL keys absent after >= 700 ms downtime; plus SAVE issued while a BGSAVE of a 48 MB dataset is still running "
+                       "(writes acknowledged before the +OK must survive kill + restart after both saves ended); "
+                       "cell = (type, size class, ttl class, db class)", t0,
                        assumptions=["dumps are taken with the server's own read commands", "empty key names are not generated (refused by design)",
                                     "stream field order inside an entry is not compared"], min_cells=20)
